@@ -142,6 +142,85 @@ def check_ip(R, n):
     check_codec(R, obj, ("ip", packed))
 
 
+def deep_stack(R):
+    """Values are decoded lazily, i.e. on the CALLER's stack: read at every depth close to
+    the interpreter's recursion limit a value comes out right or the read raises
+    RecursionError - never something else (a swallowed RecursionError turning into a
+    fallback value)."""
+    import sys
+
+    samples = [
+        (bytes([0x40, 4, 192, 0, 2, 1]), lambda o: o.pythonize(), ipaddress.IPv4Address("192.0.2.1")),
+        (bytes([0x40, 4, 192, 0, 2, 1]), lambda o: o.value, ipaddress.IPv4Address("192.0.2.1")),
+        (bytes([0x43, 3, 0x01, 0x51, 0x80]), lambda o: o.pythonize(), 86400 * TICK),
+        (bytes([0x43, 3, 0x01, 0x51, 0x80]), lambda o: o.value, 86400),
+        (bytes([0x41, 5, 0, 0xFF, 0xFF, 0xFF, 0xFF]), lambda o: o.value, 2**32 - 1),
+        (bytes([0x42, 1, 0x7F]), lambda o: o.pythonize(), 127),
+        (bytes([0x46, 9, 0] + [0xFF] * 8), lambda o: o.value, 2**64 - 1),
+        (bytes([0x02, 2, 0xFF, 0x7F]), lambda o: o.pythonize(), -129),
+        (bytes([0x04, 3]) + b"abc", lambda o: o.pythonize(), b"abc"),
+        (bytes([0x06, 3, 0x2B, 0x06, 0x01]), lambda o: str(o.pythonize()), "1.3.6.1"),
+    ]
+
+    def at_depth(n, fn):
+        if n <= 0:
+            return fn()
+        return at_depth(n - 1, fn)
+
+    limit = sys.getrecursionlimit()
+    for raw, read, want in samples:
+        for n in range(limit - 120, limit + 2):
+            def probe(raw=raw, read=read):
+                return read(x690.decode(raw)[0])
+            try:
+                got = at_depth(n, probe)
+            except RecursionError:
+                R.mon["deep_reads_recursion_error"] += 1
+                continue
+            except Exception as exc:  # noqa: BLE001
+                R.violation({"kind": "deep-stack", "raw": raw.hex(), "depth": n}, "reading %s %d frames deep raised %r (neither the value nor RecursionError)" % (raw.hex(), n, exc), None)
+                return
+            R.evaluations += 1
+            if got != want or type(got) is not type(want):
+                R.violation({"kind": "deep-stack", "raw": raw.hex(), "depth": n}, "reading %s %d frames deep (recursion limit %d) gave %r, expected %r" % (raw.hex(), n, limit, got, want), None)
+                return
+            R.mon["deep_reads_ok"] += 1
+
+
+def thread_stress(R):
+    """Four OS threads convert values at the same time (each its own values), with thread
+    switches forced between the statements of the library: every conversion still gives
+    what it gives single-threaded."""
+    from .. import threads
+
+    jobs = []
+    for ti in range(4):
+        mine = []
+        for j in range(300):
+            t = (ti * 1000003 + j * 7919) % 2**32 if j % 5 else (0, 1, 2**31, 2**32 - 1, 4242)[(j // 5 + ti) % 5]
+            mine.append((lambda t=t: TimeTicks(t).pythonize(), t * TICK))
+            mine.append((lambda t=t: TimeTicks(t * TICK).value, t))
+            n = t * (2**33 + 1) - 5 * ti
+            mine.append((lambda n=n: Counter(n).value, max(n, 0) % 2**32))
+            mine.append((lambda n=n: Counter64(n).value, max(n, 0) % 2**64))
+            a = ipaddress.IPv4Address(t)
+            mine.append((lambda a=a: IpAddress(a).pythonize(), a))
+            raw = bytes([0x43, 4]) + (t | 2**31).to_bytes(4, "big")
+            mine.append((lambda raw=raw: x690.decode(raw)[0].value, t | 2**31))
+        jobs.append(mine)
+    bad, stats = threads.run(jobs, rounds=2)
+    R.notes["thread_stress"] = stats
+    R.mon["thread_stress_calls"] += stats["calls"]
+    R.evaluations += stats["calls"]
+    if stats["hung_threads"]:
+        R.inconclusive("thread stress: %d threads did not finish" % stats["hung_threads"])
+        return
+    for ti, ji, got, want in bad[:3]:
+        R.violation({"kind": "threads", "thread": ti, "job": ji}, "under concurrent use from 4 threads a conversion gave %r, single-threaded it gives %r" % (got, want), None)
+    if not bad:
+        R.mon["thread_stress_ok"] += 1
+
+
 def interesting_ints(rng, extra=()):
     out = set(extra)
     for k in list(range(0, 70)) + [96, 127, 128, 129, 130]:
@@ -256,6 +335,10 @@ def run(R):
                 break
             R.mon["ip_textlike_checked"] += len(alphabet) ** 2
             R.evaluations += len(alphabet) ** 2
+    if R.shard == 1 % R.nshards:
+        thread_stress(R)
+    if R.shard == 2 % R.nshards:
+        deep_stack(R)
     # ---- contracts ------------------------------------------------------------
     breaches = sum(len(c.breaches) for c in contracts)
     typecontracts.report(R, contracts, decide=False)
@@ -276,6 +359,10 @@ def replay(R, v):
         check_counter(R, Counter if c["cls"] == "Counter" else Counter64, 32 if c["cls"] == "Counter" else 64, c["n"])
     elif k == "ip":
         check_ip(R, c["n"])
+    elif k == "threads":
+        thread_stress(R)
+    elif k == "deep-stack":
+        deep_stack(R)
     elif k == "unsigned-decode":
         raw = bytes.fromhex(c["raw"])
         cls = {0x41: Counter, 0x42: Gauge, 0x43: TimeTicks, 0x46: Counter64}[raw[0]]
